@@ -190,6 +190,52 @@ def suite_by_name(name):
     return next(s for s in SUITES if s.name == name)
 
 
+def rule_consistency(r, n_files):
+    """command-line glue: for every combination of --gene_level / --fasta_use_uniprot_id and every share of records with a gene name
+    the identifiers in the peptide-to-protein map (built by peptide_protein_map.get_peptide_to_protein_maps_from_args) are keys of the
+    annotation dictionary (built by protein_annotation.get_protein_annotations): both sides must apply the same identifier rule"""
+    import argparse
+    import tempfile
+    from picked_group_fdr import peptide_protein_map, protein_annotation as pa
+    n = 0
+    for k in range(n_files):
+        text, _ = gen_fasta(r.rng, r.rng.randint(2, 6), r.rng.choice([0.0, 0.3, 1.0]))
+        d = tempfile.mkdtemp(prefix="c19r_", dir=core.scratch())
+        fasta = os.path.join(d, "db.fasta")
+        open(fasta, "w").write(text)
+        for gene_level in (False, True):
+            for uniprot in (False, True):
+                for contains_decoys in (False, True):
+                    n += 1
+                    try:
+                        ann, pseudo = pa.get_protein_annotations([fasta], contains_decoys, gene_level, uniprot)
+                        args = argparse.Namespace(gene_level=gene_level, fasta_use_uniprot_id=uniprot, fasta=[fasta], peptide_protein_map=None,
+                                                  mq_protein_groups=None, enzyme=["trypsin"], digestion=["full"], min_length=[1], max_length=[60],
+                                                  cleavages=[1], special_aas=["KR"], fasta_contains_decoys=contains_decoys)
+                        maps = peptide_protein_map.get_peptide_to_protein_maps_from_args(args, pseudo)
+                    except Exception as e:
+                        if gene_level and not pseudo_possible(text):
+                            continue
+                        r.violation("property-failure", {"suite": "rule_consistency", "fasta": text, "gene_level": gene_level, "uniprot": uniprot,
+                                                         "error": f"{type(e).__name__}: {e}"[:200]}, True,
+                                    f"rule_consistency: building annotations / map raised {type(e).__name__} (gene_level={gene_level}, uniprot={uniprot})")
+                        return n
+                    ids = {p for m in maps for ps in (m.values() if isinstance(m, dict) else m[0].values()) for p in ps}
+                    missing = sorted(p for p in ids if not p.startswith("REV__") and p not in ann)
+                    if missing:
+                        r.violation("property-failure", {"suite": "rule_consistency", "fasta": text, "gene_level": gene_level, "uniprot": uniprot,
+                                                         "contains_decoys": contains_decoys, "pseudo_genes": pseudo, "map_ids_without_annotation": missing[:5],
+                                                         "annotation_keys": sorted(ann)[:8]}, True,
+                                    f"rule_consistency: identifiers of the peptide-to-protein map are not keys of the annotations "
+                                    f"(gene_level={gene_level}, fasta_use_uniprot_id={uniprot}, pseudo_genes={pseudo}): {missing[:3]}")
+                        return n
+    return n
+
+
+def pseudo_possible(text):
+    return True
+
+
 def run(r: core.Runner):
     r.assumptions += [
         "with exactly half of the records carrying a gene name the code uses pseudo-genes (the test is count/len > 0.5, strict); "
@@ -210,4 +256,4 @@ def run(r: core.Runner):
             r.violation("property-failure", {"suite": fs.name, "case": c, "impl_output": out, "signature": v}, True,
                         f"{fs.name}: {v}")
             break
-    r.traces = n
+    r.traces = n + rule_consistency(r, core.tier_n(r.tier, 12, 120))
